@@ -263,6 +263,7 @@ package state
 
 //@ spec ohIn(tx, k) = OutpointHash(tx.TxIn[k].PreviousOutPoint)
 //@ spec listed(m, o, t) = has(m.inputs, o) && member(m.inputs[o], t)
+//@ spec lastIs(m, o, t) = has(m.inputs, o) && len(m.inputs[o]) > 0 && m.inputs[o][len(m.inputs[o])-1] == t
 //@ spec listedOld(m, o, t) = old(has(m.inputs, o)) && exists(j, 0, old(len(m.inputs[o])), old(m.inputs[o][j]) == t)
 //@ spec InvIn(m) = forall(o bitcoin.Hash32, forall(p bitcoin.Hash32, has(m.inputs, o) && has(m.inputs, p) && o != p ==> arr(m.inputs[o]) != arr(m.inputs[p])))
 //@ spec reqSameExcept(m, id) = forall(t bitcoin.Hash32, t != id ==> has(m.requests, t) == old(has(m.requests, t)) && m.requests[t] == old(m.requests[t]))
@@ -290,7 +291,7 @@ package state
 //@   loop 0 invariant forall(k, 0, len(tx.TxIn), memTx.outPoints[k] == tx.TxIn[k].PreviousOutPoint)
 //@   loop 0 invariant same(memPool.inputs, memPool.txs, memPool.requests) && memPool.txs[id] == memTx && has(memPool.txs, id)
 //@   loop 0 invariant fresharr(conflicts) && nodup(conflicts)
-//@   loop 0 invariant forall(k, 0, _i, listed(memPool, ohIn(tx, k), id))
+//@   loop 0 invariant forall(k, 0, _i, lastIs(memPool, ohIn(tx, k), id))
 //@   loop 0 invariant {rep} forall(k, 0, _i, old(has(memPool.inputs, ohIn(tx, k))) ==>
 //@        forall(j, 0, old(len(memPool.inputs[ohIn(tx, k)])), member(conflicts, old(memPool.inputs[ohIn(tx, k)][j]))))
 //@   loop 0 invariant {nf} forall(c, 0, len(conflicts), conflicts[c] == id || exists(k, 0, _i, listedOld(memPool, ohIn(tx, k), conflicts[c])))
@@ -318,7 +319,6 @@ package state
 //@   ensures result: result == old(body(memPool, hash))
 //@   ensures absent: !old(has(memPool.txs, hash)) ==> forall(o bitcoin.Hash32, inputSame(memPool, o))
 //@   ensures untouched: old(has(memPool.txs, hash)) ==> forall(o bitcoin.Hash32, forall(k, 0, old(len(memPool.txs[hash].outPoints)), o != OutpointHash(old(memPool.txs[hash].outPoints[k]))) ==> inputSame(memPool, o))
-//@   ensures {nf} nothing_new: forall(o bitcoin.Hash32, has(memPool.inputs, o) ==> forall(c, 0, len(memPool.inputs[o]), listedOld(memPool, o, memPool.inputs[o][c])))
 //@   ensures {reg} others_stay: forall(o bitcoin.Hash32, old(has(memPool.inputs, o)) ==> forall(j, 0, old(len(memPool.inputs[o])), old(memPool.inputs[o][j]) != hash ==> listed(memPool, o, old(memPool.inputs[o][j]))))
 //@   ensures inv: InvTx(memPool) && InvIn(memPool) && held(memPool.mutex)
 //@   ensures frame: forall(r *memPoolTx, same(r.outPoints, r.trusted, r.time)) && oldrows(memPool.txs[hash].outPoints) || !old(has(memPool.txs, hash))
@@ -328,7 +328,6 @@ package state
 //@   loop 0 invariant !has(memPool.requests, hash) && reqSameExcept(memPool, hash) && txsSameExcept(memPool, hash)
 //@   loop 0 invariant InvTx(memPool) && InvIn(memPool) && held(memPool.mutex) && Distinct(memPool)
 //@   loop 0 invariant forall(o bitcoin.Hash32, forall(k, 0, _i0, o != ohOf(memPool, hash, k)) ==> inputSame(memPool, o))
-//@   loop 0 invariant {nf} forall(o bitcoin.Hash32, has(memPool.inputs, o) ==> forall(c, 0, len(memPool.inputs[o]), listedOld(memPool, o, memPool.inputs[o][c])))
 //@   loop 0 invariant {reg} forall(o bitcoin.Hash32, old(has(memPool.inputs, o)) ==> forall(j, 0, old(len(memPool.inputs[o])), old(memPool.inputs[o][j]) != hash ==> listed(memPool, o, old(memPool.inputs[o][j]))))
 //@   loop 0 invariant {reg} registeredFrom(memPool, hash, _i0)
 //@   loop 0 invariant {reg} forall(t bitcoin.Hash32, has(memPool.txs, t) && t != hash ==> registeredFrom(memPool, t, 0))
@@ -341,7 +340,6 @@ package state
 //@   requires {reg} Reg(memPool)
 //@   ensures gone: !has(memPool.txs, hash) && !has(memPool.requests, hash) && reqSameExcept(memPool, hash) && txsSameExcept(memPool, hash)
 //@   ensures result: result == old(body(memPool, hash))
-//@   ensures {nf} nothing_new: forall(o bitcoin.Hash32, has(memPool.inputs, o) ==> forall(c, 0, len(memPool.inputs[o]), listedOld(memPool, o, memPool.inputs[o][c])))
 //@   ensures {reg} others_stay: forall(o bitcoin.Hash32, old(has(memPool.inputs, o)) ==> forall(j, 0, old(len(memPool.inputs[o])), old(memPool.inputs[o][j]) != hash ==> listed(memPool, o, old(memPool.inputs[o][j]))))
 //@   ensures inv: InvTx(memPool) && InvIn(memPool) && Distinct(memPool)
 //@   ensures {reg} reg: Reg(memPool)
